@@ -226,6 +226,44 @@ pub fn guard_case(site: &str, f: impl FnOnce() -> CaseResult) -> CaseResult {
     }
 }
 
+/// Owner of a value of the library under test whose destructor may panic (a store whose worker
+/// thread has died panics when it is dropped). While a check is already unwinding from a first
+/// panic of the library, a second one leaving a destructor would abort the whole process and the
+/// verdict with it; here it is caught and the first panic stays the reported failure.
+pub struct QuietDrop<T>(std::mem::ManuallyDrop<T>);
+
+impl<T> QuietDrop<T> {
+    pub fn new(t: T) -> Self {
+        QuietDrop(std::mem::ManuallyDrop::new(t))
+    }
+}
+
+impl<T> std::ops::Deref for QuietDrop<T> {
+    type Target = T;
+    fn deref(&self) -> &T {
+        &self.0
+    }
+}
+
+impl<T> std::ops::DerefMut for QuietDrop<T> {
+    fn deref_mut(&mut self) -> &mut T {
+        &mut self.0
+    }
+}
+
+impl<T> Drop for QuietDrop<T> {
+    fn drop(&mut self) {
+        let t = unsafe { std::mem::ManuallyDrop::take(&mut self.0) };
+        if std::thread::panicking() {
+            let prev = QUIET_THREAD.with(|q| std::mem::replace(&mut *q.borrow_mut(), true));
+            let _ = catch_unwind(AssertUnwindSafe(move || drop(t)));
+            QUIET_THREAD.with(|q| *q.borrow_mut() = prev);
+        } else {
+            drop(t);
+        }
+    }
+}
+
 // ---------------------------------------------------------------------------------------------
 // known findings
 
@@ -380,6 +418,32 @@ pub fn mix(a: u64, b: u64) -> u64 {
 
 static CURRENT_CASE: Mutex<Option<(String, Value)>> = Mutex::new(None);
 pub static PROGRESS: AtomicU64 = AtomicU64::new(0);
+
+/// For checks that evaluate their cases in this process: when no case at all has completed for
+/// `secs` seconds (typical cases take micro- to milliseconds) the code under test is stuck in a
+/// call that will never return. The run ends as inconclusive (exit 2) instead of hanging for ever;
+/// it is never counted as a violation.
+pub fn stall_watchdog(secs: u64) {
+    static STARTED: AtomicBool = AtomicBool::new(false);
+    if STARTED.swap(true, Ordering::SeqCst) {
+        return;
+    }
+    std::thread::spawn(move || {
+        let mut last = PROGRESS.load(Ordering::Relaxed);
+        let mut since = Instant::now();
+        loop {
+            std::thread::sleep(Duration::from_secs(2));
+            let now = PROGRESS.load(Ordering::Relaxed);
+            if now != last {
+                last = now;
+                since = Instant::now();
+            } else if since.elapsed() > Duration::from_secs(secs) {
+                eprintln!("[sv] inconclusive: no case has completed for {} s - a call into the code under test does not return (in-process check); ending the run", secs);
+                std::process::exit(2);
+            }
+        }
+    });
+}
 
 pub fn set_current_case(sub: &str, v: Value) {
     *CURRENT_CASE.lock().unwrap_or_else(|e| e.into_inner()) = Some((sub.to_string(), v));
@@ -821,7 +885,7 @@ where
             Ok(()) => Ok(()),
             Err(f) => {
                 failed.store(true, Ordering::Relaxed);
-                if f.signature.starts_with("hang@") || f.signature.starts_with("crash@") || f.signature.starts_with("deadlock@") {
+                if f.signature.starts_with("hang@") || f.signature.starts_with("crash@") || f.signature.starts_with("deadlock@") || f.signature.starts_with("no-return@") {
                     hung.store(true, Ordering::Relaxed);
                 }
                 let mut ff = first_fail.lock().unwrap();
